@@ -731,3 +731,53 @@ pub fn mixed_value(r: &mut Rng) -> Value {
 pub fn wild_value(r: &mut Rng) -> Value {
     crate::gen::any_value(r, 3)
 }
+
+// ------------------------------------------------------------------------------------------------
+// Compositions: a type with a replaced body as the only item of a record with attributes, and
+// header_body-only types with a stateful last field (used as elements of collections, where one
+// recognizer is reset and reused for every element).
+
+#[derive(Form, Debug, PartialEq, Clone)]
+pub struct WrapBodyVec(pub BodyVec);
+specimen!(WrapBodyVec, |r| WrapBodyVec(g(r)));
+
+#[derive(Form, Debug, PartialEq, Clone)]
+pub struct WrapBodyStruct(pub BodyStruct);
+specimen!(WrapBodyStruct, |r| WrapBodyStruct(g(r)));
+
+#[derive(Form, Debug, PartialEq, Clone)]
+pub enum ChoiceBody {
+    One(BodyVec),
+    Two(BodyStruct),
+    Three(BodyPrim),
+}
+specimen!(ChoiceBody, |r| match r.below(3) {
+    0 => ChoiceBody::One(g(r)),
+    1 => ChoiceBody::Two(g(r)),
+    _ => ChoiceBody::Three(g(r)),
+});
+
+#[derive(Form, Debug, PartialEq, Clone)]
+pub struct HeaderBodyLastVec {
+    #[form(header_body)]
+    pub n: i32,
+    pub items: Vec<i32>,
+}
+specimen!(HeaderBodyLastVec, |r| HeaderBodyLastVec { n: g(r), items: g(r) });
+
+#[derive(Form, Debug, PartialEq, Clone)]
+pub struct HeaderBodyLastOpt {
+    #[form(header_body)]
+    pub n: i32,
+    pub text: String,
+    pub flag: Option<String>,
+}
+specimen!(HeaderBodyLastOpt, |r| HeaderBodyLastOpt { n: g(r), text: g(r), flag: g(r) });
+
+#[derive(Form, Debug, PartialEq, Clone)]
+pub struct HeaderBodyLastStruct {
+    #[form(header_body)]
+    pub n: i32,
+    pub inner: Labelled,
+}
+specimen!(HeaderBodyLastStruct, |r| HeaderBodyLastStruct { n: g(r), inner: g(r) });
